@@ -29,6 +29,7 @@
 #include "llvm/Support/KnownBits.h"
 #include "llvm/Support/SourceMgr.h"
 #include "llvm/Support/raw_ostream.h"
+#include <functional>
 #include <map>
 #include <set>
 #include <string>
@@ -168,8 +169,80 @@ struct Ctx {
 
 static std::string ref(Ctx &C, const Value *V, int depth = 0);
 
+struct DIEnd {
+  const DIType *D = nullptr;   // DI type of the object the pointer designates
+  std::string name;            // printable name of the enclosing named aggregate
+  std::string member;          // union member selected by a cast ("" if none / anonymous)
+};
+static std::string gepPath(Ctx &C, const GEPOperator *G, int depth, DIEnd *end = nullptr);
+
+static std::string namedAncestor(std::string n) {
+  // "dr_dag_node.<anon>.<anon>" -> "dr_dag_node": members of anonymous aggregates belong to the enclosing named one
+  const std::string suf = ".<anon>";
+  while (n.size() > suf.size() && n.compare(n.size() - suf.size(), suf.size(), suf) == 0) n.erase(n.size() - suf.size());
+  return n;
+}
+
+static unsigned diMemberCount(const DICompositeType *CT) {
+  unsigned k = 0;
+  for (const DINode *N : CT->getElements())
+    if (auto *M = dyn_cast<DIDerivedType>(N))
+      if (M->getTag() == dwarf::DW_TAG_member && !M->isStaticMember()) k++;
+  return k;
+}
+
+// DI type designated by a pointer value: through GEPs, and through casts of a pointer to a union to one of its members
+static DIEnd endOf(Ctx &C, const Value *P, int depth) {
+  DIEnd e;
+  if (depth > 8 || !P) return e;
+  if (auto *G = dyn_cast<GEPOperator>(P)) {
+    gepPath(C, G, depth + 1, &e);
+    return e;
+  }
+  auto *BC = dyn_cast<BitCastOperator>(P);
+  if (!BC) return e;
+  DIEnd src = endOf(C, BC->getOperand(0), depth + 1);
+  const DICompositeType *U = dyn_cast_or_null<DICompositeType>(stripDI(src.D));
+  if (!U || U->getTag() != dwarf::DW_TAG_union_type) return e;
+  auto *PT = dyn_cast<PointerType>(BC->getType());
+  if (!PT || PT->isOpaque()) return e;
+  Type *To = PT->getPointerElementType();
+  if (!To->isSized()) return e;
+  uint64_t bits = C.DL->getTypeAllocSize(To) * 8;
+  bool wantAgg = To->isStructTy() || To->isArrayTy();
+  const DIDerivedType *best = nullptr;
+  unsigned nbest = 0;
+  for (const DINode *N : U->getElements()) {
+    auto *Mem = dyn_cast<DIDerivedType>(N);
+    if (!Mem || Mem->getTag() != dwarf::DW_TAG_member || Mem->isStaticMember()) continue;
+    const DIType *B = stripDI(Mem->getBaseType());
+    auto *BCt = dyn_cast_or_null<DICompositeType>(B);
+    bool isAgg = BCt && (BCt->getTag() == dwarf::DW_TAG_structure_type || BCt->getTag() == dwarf::DW_TAG_union_type ||
+                         BCt->getTag() == dwarf::DW_TAG_class_type || BCt->getTag() == dwarf::DW_TAG_array_type);
+    if (isAgg != wantAgg) continue;
+    if (Mem->getSizeInBits() != bits) continue;
+    if (auto *ST = dyn_cast<StructType>(To))
+      if (BCt && BCt->getTag() != dwarf::DW_TAG_array_type && diMemberCount(BCt) != ST->getNumElements()) {
+        // padding may add LLVM elements; accept only an exact match when there are several candidates
+        if (best) continue;
+      }
+    best = Mem;
+    nbest++;
+  }
+  if (nbest != 1) return e;
+  e.D = best->getBaseType();
+  e.name = namedAncestor(src.name);
+  if (!best->getName().empty()) e.member = e.name + "." + best->getName().str();
+  {
+    std::string nm = diName(e.D);
+    const DICompositeType *BCt = dyn_cast_or_null<DICompositeType>(stripDI(e.D));
+    if (BCt && BCt->getTag() != dwarf::DW_TAG_array_type && !nm.empty()) e.name = nm;
+  }
+  return e;
+}
+
 // Resolve a GEP (instruction or constant expression) to a JSON path array.
-static std::string gepPath(Ctx &C, const GEPOperator *G, int depth) {
+static std::string gepPath(Ctx &C, const GEPOperator *G, int depth, DIEnd *end) {
   std::string out = "[";
   Type *cur = G->getSourceElementType();
   const DIType *D = nullptr;
@@ -192,7 +265,17 @@ static std::string gepPath(Ctx &C, const GEPOperator *G, int depth) {
     if (it != C.di.byName.end()) { D = it->second; Dname = b; }
     else { D = nullptr; Dname = b.empty() ? "?" : b; }
   };
-  if (auto *ST = dyn_cast<StructType>(cur)) bindStruct(ST);
+  if (auto *ST = dyn_cast<StructType>(cur)) {
+    bindStruct(ST);
+    if (!D) {
+      // an anonymous struct reached through a cast of a union pointer: take the member the cast selects
+      DIEnd b = endOf(C, G->getPointerOperand(), depth + 1);
+      if (b.D && dyn_cast_or_null<DICompositeType>(stripDI(b.D))) { D = b.D; Dname = b.name; }
+    }
+  } else if (isa<ArrayType>(cur)) {
+    DIEnd b = endOf(C, G->getPointerOperand(), depth + 1);
+    if (b.D) { D = b.D; Dname = b.name; }
+  }
   unsigned n = 0;
   for (auto it = G->idx_begin(); it != G->idx_end(); ++it, ++n) {
     const Value *Idx = *it;
@@ -236,7 +319,7 @@ static std::string gepPath(Ctx &C, const GEPOperator *G, int depth) {
           // keep D as array; element handled on array step
         } else {
           std::string nm = diName(D);
-          Dname = nm.empty() ? parent : nm;
+          Dname = nm.empty() ? namedAncestor(parent) : nm;
         }
       }
       if (auto *ST2 = dyn_cast<StructType>(cur)) {
@@ -266,6 +349,7 @@ static std::string gepPath(Ctx &C, const GEPOperator *G, int depth) {
     }
   }
   out += "]";
+  if (end) { end->D = D; end->name = Dname; }
   return out;
 }
 
@@ -463,30 +547,40 @@ int main(int argc, char **argv) {
       f = false;
       out << "\n" << esc(kv.first) << ":{\"size\":" << kv.second->getSizeInBits() / 8 << ",\"fields\":[";
       bool g = true;
-      for (const DINode *N : kv.second->getElements()) {
-        auto *Mem = dyn_cast<DIDerivedType>(N);
-        if (!Mem || Mem->getTag() != dwarf::DW_TAG_member) continue;
-        if (!g) out << ",";
-        g = false;
-        const DIType *BT = stripDI(Mem->getBaseType());
-        long nelem = -1;
-        if (auto *CT = dyn_cast_or_null<DICompositeType>(BT))
-          if (CT->getTag() == dwarf::DW_TAG_array_type)
-            for (const DINode *E : CT->getElements())
-              if (auto *SR = dyn_cast<DISubrange>(E))
-                if (auto *CI = SR->getCount().dyn_cast<ConstantInt *>()) nelem = CI->getSExtValue();
-        bool vol = false;
-        for (const DIType *t = Mem->getBaseType(); t;) {
-          auto *D = dyn_cast<DIDerivedType>(t);
-          if (!D) break;
-          if (D->getTag() == dwarf::DW_TAG_volatile_type) vol = true;
-          if (D->getTag() == dwarf::DW_TAG_pointer_type) break;
-          t = D->getBaseType();
+      std::function<void(const DICompositeType *, uint64_t, int)> emitMembers =
+          [&](const DICompositeType *CTy, uint64_t baseBits, int lvl) {
+        for (const DINode *N : CTy->getElements()) {
+          auto *Mem = dyn_cast<DIDerivedType>(N);
+          if (!Mem || Mem->getTag() != dwarf::DW_TAG_member) continue;
+          if (!g) out << ",";
+          g = false;
+          const DIType *BT = stripDI(Mem->getBaseType());
+          long nelem = -1;
+          if (auto *CT = dyn_cast_or_null<DICompositeType>(BT))
+            if (CT->getTag() == dwarf::DW_TAG_array_type)
+              for (const DINode *E : CT->getElements())
+                if (auto *SR = dyn_cast<DISubrange>(E))
+                  if (auto *CI = SR->getCount().dyn_cast<ConstantInt *>()) nelem = CI->getSExtValue();
+          bool vol = false;
+          for (const DIType *t = Mem->getBaseType(); t;) {
+            auto *D = dyn_cast<DIDerivedType>(t);
+            if (!D) break;
+            if (D->getTag() == dwarf::DW_TAG_volatile_type) vol = true;
+            if (D->getTag() == dwarf::DW_TAG_pointer_type) break;
+            t = D->getBaseType();
+          }
+          std::string mname = Mem->getName().empty() ? std::string("<anon>") : Mem->getName().str();
+          out << "{\"name\":" << esc(mname) << ",\"off\":" << (baseBits + Mem->getOffsetInBits()) / 8
+              << ",\"size\":" << Mem->getSizeInBits() / 8 << ",\"type\":" << esc(diName(Mem->getBaseType()))
+              << ",\"nelem\":" << nelem << ",\"volatile\":" << (vol ? "true" : "false") << "}";
+          // members of an anonymous struct/union are members of the enclosing aggregate
+          if (Mem->getName().empty() && lvl < 6)
+            if (auto *CT = dyn_cast_or_null<DICompositeType>(BT))
+              if (CT->getTag() == dwarf::DW_TAG_structure_type || CT->getTag() == dwarf::DW_TAG_union_type)
+                emitMembers(CT, baseBits + Mem->getOffsetInBits(), lvl + 1);
         }
-        out << "{\"name\":" << esc(Mem->getName()) << ",\"off\":" << Mem->getOffsetInBits() / 8
-            << ",\"size\":" << Mem->getSizeInBits() / 8 << ",\"type\":" << esc(diName(Mem->getBaseType()))
-            << ",\"nelem\":" << nelem << ",\"volatile\":" << (vol ? "true" : "false") << "}";
-      }
+      };
+      emitMembers(kv.second, 0, 0);
       out << "]}";
     }
   }
@@ -808,6 +902,10 @@ int main(int argc, char **argv) {
           out << "]";
         } else if (auto *CI = dyn_cast<CastInst>(&I)) {
           out << ",\"srcty\":" << esc(tystr(CI->getSrcTy()));
+          if (isa<BitCastInst>(CI) && CI->getType()->isPointerTy()) {
+            DIEnd e = endOf(C, CI, 0);
+            if (!e.member.empty()) out << ",\"um\":" << esc(e.member);
+          }
         }
         if (SE && I.getType()->isIntegerTy() && LI.getLoopFor(&B) && SE->isSCEVable(I.getType())) {
           const SCEV *S = SE->getSCEV(&I);
